@@ -394,6 +394,10 @@ def finish(a, cfg, hs, results, extra, seed, t0):
         os.environ.pop("PYVC_FOLLOWUP", None)
         if res.get("reproduced"):
             print("KNOWN-FINDING: property=%s %s" % (prop, k["what"]))
+        elif res.get("precondition_failed") or res.get("error"):
+            # the witness could not be EVALUATED on this tree (the contract's state description does not fit it): no verdict
+            print("UNDECIDED property=%s obligation=known-finding-witness[%s] reason=%s" % (prop, k["id"], (res.get("precondition_failed") or res.get("error"))[:200]))
+            rc = max(rc, 2)
         else:
             print("CHECKER-ERROR known finding %s: its witness no longer fails on this tree (%s); known_findings.json is stale"
                   % (k["id"], json.dumps(res)[:300]))
